@@ -52,6 +52,8 @@ MIN_HITS['quick']['mon:empty'] = 40
 MIN_HITS['quick'].update({'mon:rawmerge': 500, 'batches-as:iterator': 100, 'batches-as:generator': 100})
 MIN_HITS['thorough'].update({'mon:rawmerge': 8000, 'batches-as:iterator': 1500, 'batches-as:generator': 1500})
 MIN_HITS['quick']['mon:allpad'] = 40
+MIN_HITS['quick'].update({'hit:half-precision-evaluation': 20, 'hit:haiku-model-evaluation': 40})
+MIN_HITS['thorough'].update({'hit:half-precision-evaluation': 200, 'hit:haiku-model-evaluation': 500})
 MIN_HITS['quick']['mon:debug-global'] = 40
 MIN_HITS['quick']['mon:debug-perclient'] = 40
 MIN_HITS['thorough']['mon:empty'] = 600
@@ -679,6 +681,121 @@ def run_pdpp(ctx, fedjax, jax, jnp, rng):
   ctx.case_done((repr(a), C, L, digest(Y, P, Dm)), sample=wit, klass=['pdpp'])
 
 
+def run_half(ctx, fedjax, jax, jnp, rng, case_no):
+  """Half-precision predictions, thousands of examples: the evaluation result must not depend on the batch size (sums kept in
+  the predictions' dtype saturate: 2^11 in float16, 2^8 in bfloat16) and must equal the mean of the per-example losses."""
+  M = fedjax.metrics
+  dt, eps, dname = [(jnp.float16, 2.0**-10, 'float16'), (jnp.bfloat16, 2.0**-7, 'bfloat16')][case_no % 2]
+  n = int([4096, 6000, 8192, 9000][case_no % 4]) + int(rng.randint(0, 5))
+  C, D = int(rng.randint(2, 6)), 2
+  y = rng.randint(0, C, size=n).astype(np.int32)
+  sc = rng.randn(n, C)
+  sc[np.arange(n), (y + 1) % C] += rng.uniform(8.0, 12.0, size=n)          # loss ~ 10 per example
+  P = np.asarray(jnp.asarray(sc).astype(dt))                               # half-precision NumPy array (ml_dtypes for bfloat16)
+  Pr = np.asarray(jnp.asarray(P).astype(jnp.float32), np.float64)
+  per = np.log(np.sum(np.exp(Pr - Pr.max(1, keepdims=True)), axis=1)) - (Pr - Pr.max(1, keepdims=True))[np.arange(n), y]
+  Dm = (np.arange(n) % D).astype(np.int32)
+  want = {'loss': float(per.mean()), 'acc': float(np.mean(np.argmax(Pr, axis=1) == y)),
+          'pd': np.array([per[Dm == d].mean() for d in range(D)])}
+  tol = 16 * eps * (np.abs(per).max() + np.abs(Pr).max() + 1.0)
+  model = fedjax.Model(init=lambda r: None, apply_for_train=lambda p, b, r: None, apply_for_eval=lambda p, b: b[PRED],
+                       train_loss=lambda b, o: None,
+                       eval_metrics={'loss': M.CrossEntropyLoss(), 'acc': M.Accuracy(),
+                                     'pd': M.PerDomainMetric(M.CrossEntropyLoss(), num_domains=D, domain_id_key='domain_id')})
+  wit = {'family': 'half', 'predictions_dtype': dname, 'examples': n, 'classes': C, 'reference': {k: np.asarray(v) for k, v in want.items()}}
+  seen = {}
+  for bs in (64, 1024, n, 4096):
+    pad = int(rng.randint(0, 9))
+    batches = []
+    for lo in range(0, n, bs):
+      hi = min(n, lo + bs)
+      m = np.ones(hi - lo + pad, bool)
+      m[hi - lo:] = False
+      batches.append({'y': np.concatenate([y[lo:hi], np.zeros(pad, np.int32)]), PRED: np.concatenate([P[lo:hi], P[:pad]]),
+                      'domain_id': np.concatenate([Dm[lo:hi], np.zeros(pad, np.int32)]), '__mask__': m})
+    w = {**wit, 'batch_size': bs, 'padding_rows': pad}
+    r = ctx.call('evaluate_model', fedjax.evaluate_model, model, None, batches, witness=w)
+    if not r.ok:
+      continue
+    ctx.count('hit:half-precision-evaluation')
+    for name in ('loss', 'acc', 'pd'):
+      g = np.asarray(r.value[name]).astype(np.float64)
+      t = tol if name != 'acc' else 1e-6
+      ok = g.shape == np.shape(want[name]) and not np.any(np.isnan(g)) and bool(np.all(np.abs(g - want[name]) <= t))
+      ctx.check(ok, 'half/evaluation-differs-from-mean-of-examples',
+                f'{name} of {n} {dname} examples in batches of {bs}: {g}, mean of the per-example values {want[name]}', dict(w, metric=name, got=g))
+      seen.setdefault(name, []).append(g)
+  for name, vals in seen.items():
+    if len(vals) >= 2:
+      spread = float(np.max(np.abs(np.stack(vals) - vals[0])))
+      ctx.check(spread <= (2 * tol if name != 'acc' else 1e-6), 'half/result-depends-on-batch-size',
+                f'{name} over the same {dname} examples differs by {spread:.3g} between batch sizes', dict(wit, metric=name, values=vals))
+  ctx.case_done(('half', dname, n, C), sample=wit, klass=['half', 'half:' + dname])
+
+
+def run_haiku(ctx, fedjax, jax, jnp, rng, case_no):
+  """A model built by create_model_from_haiku whose forward pass behaves differently (batch-dependently) in training mode: the
+  evaluation pass must use exactly the eval_kwargs (none given => the forward pass' own defaults), so its results are invariant
+  to batching, order and padding garbage and equal the per-example definition."""
+  import haiku as hk
+  M = fedjax.metrics
+  F, C = int(rng.randint(2, 6)), int(rng.randint(2, 5))
+  n = int(rng.randint(5, 40))
+
+  def forward(batch, is_train=False, scale=1.0):
+    x = batch['x']
+    if is_train:
+      x = (x - jnp.mean(x, axis=0, keepdims=True)) / (jnp.std(x, axis=0, keepdims=True) + 1e-3)   # batch statistics
+    return hk.Linear(C)(x) * scale
+
+  variant = case_no % 4
+  train_kwargs = [{'is_train': True}, {'is_train': True, 'scale': 1.0}, {'is_train': True}, {'is_train': True, 'scale': 3.0}][variant]
+  eval_kwargs = [None, None, {}, {'scale': 2.0}][variant]
+  eval_scale = 2.0 if variant == 3 else 1.0
+  wit = {'family': 'haiku', 'train_kwargs': train_kwargs, 'eval_kwargs': eval_kwargs, 'examples': n, 'features': F, 'classes': C}
+  metrics_ = {'acc': M.Accuracy(), 'loss': M.CrossEntropyLoss()}
+
+  def build():
+    return fedjax.create_model_from_haiku(
+        transformed_forward_pass=hk.transform(forward), sample_batch={'x': jnp.zeros((1, F))},
+        train_loss=lambda b, p: M.unreduced_cross_entropy_loss(b['y'], p), eval_metrics=metrics_,
+        **({'train_kwargs': train_kwargs} if True else {}), **({'eval_kwargs': eval_kwargs} if eval_kwargs is not None else {}))
+
+  r = ctx.call('create_model_from_haiku', build, witness=wit)
+  if not r.ok:
+    return ctx.case_done(None, sample=wit, klass=['haiku:raised'])
+  model = r.value
+  params = jax.tree_util.tree_map(lambda l: jnp.asarray(rng.normal(size=l.shape), dtype=l.dtype), model.init(jax.random.PRNGKey(0)))
+  x = (rng.normal(size=(n, F)) * 2.0 + 3.0).astype(np.float32)
+  y = rng.randint(0, C, n).astype(np.int32)
+  w_, b_ = np.asarray(params['linear']['w'], np.float64), np.asarray(params['linear']['b'], np.float64)
+  logits = (x.astype(np.float64) @ w_ + b_) * eval_scale
+  per = np.log(np.sum(np.exp(logits - logits.max(1, keepdims=True)), axis=1)) - (logits - logits.max(1, keepdims=True))[np.arange(n), y]
+  srt = np.sort(logits, axis=1)
+  margin_ok = bool(np.all(srt[:, -1] - srt[:, -2] > 1e-3))
+  want = {'loss': float(per.mean()), 'acc': float(np.mean(np.argmax(logits, 1) == y))}
+  for bs in (1, 4, n, 7):
+    order = rng.permutation(n)
+    pad_to = bs + int(rng.randint(0, 4))
+    batches = []
+    for lo in range(0, n, bs):
+      idx = order[lo:lo + bs]
+      k = pad_to - len(idx)
+      m = np.concatenate([np.ones(len(idx), bool), np.zeros(k, bool)])
+      batches.append({'x': np.concatenate([x[idx], rng.uniform(-50, 50, (k, F)).astype(np.float32)]),
+                      'y': np.concatenate([y[idx], rng.randint(0, C, k).astype(np.int32)]), '__mask__': m})
+    w = {**wit, 'batch_size': bs, 'padded_to': pad_to}
+    r = ctx.call('evaluate_model', fedjax.evaluate_model, model, params, batches, witness=w)
+    if r.ok:
+      ctx.count('hit:haiku-model-evaluation')
+      g_loss, g_acc = float(np.asarray(r.value['loss'])), float(np.asarray(r.value['acc']))
+      ok = abs(g_loss - want['loss']) <= 1e-4 * (1 + abs(want['loss'])) and (not margin_ok or abs(g_acc - want['acc']) <= 1e-6)
+      ctx.check(ok, 'haiku/evaluation-differs-from-per-example-definition',
+                f'evaluate_model on a create_model_from_haiku model (train_kwargs={train_kwargs}, eval_kwargs={eval_kwargs}): loss {g_loss} '
+                f'accuracy {g_acc}; per-example evaluation-mode forward pass gives {want["loss"]} / {want["acc"]}', dict(w, got=[g_loss, g_acc]))
+  ctx.case_done(('haiku', variant, n, F, C), sample=wit, klass=['haiku'])
+
+
 def run(ctx):
   import warnings
   warnings.filterwarnings('ignore', message='Some donated buffers were not usable')
@@ -705,6 +822,10 @@ def run(ctx):
     run_case(ctx, fedjax, jax, jnp, cd, worlds[w], rng, debug_case=(i // W) % 7 == 0)
   for cid, rng in ctx.cases('pdpp', 24 if ctx.quick else 280):
     run_pdpp(ctx, fedjax, jax, jnp, rng)
+  for cid, rng in ctx.cases('half', 8 if ctx.quick else 64):
+    run_half(ctx, fedjax, jax, jnp, rng, int(cid.split('/')[1]))
+  for cid, rng in ctx.cases('haiku', 16 if ctx.quick else 160):
+    run_haiku(ctx, fedjax, jax, jnp, rng, int(cid.split('/')[1]))
 
 
 TECHNIQUE = ('runtime monitoring: every built-in metric (introspected) is evaluated through evaluate_model / ModelEvaluator '
